@@ -30,7 +30,7 @@ def c05(tier=None):
     c = Check("C05", ["Wasp.Properties.Facts.Wiring", "Wasp.Properties.C05", "Wasp.Properties.C05C12E2E", "Wasp.Properties.C04", "Wasp.Properties.Facts.C05"], tier)
     c.build()
     samples = []
-    scs = brokerlib.corpus(c.rng, ["inbound-outbound-id", "same-client-id-overlapping-qos2", "late-pubrel-after-timeout", "qos2-large-ids", "publish-workers-survive-failures"])
+    scs = brokerlib.corpus(c.rng, ["inbound-outbound-id", "same-client-id-overlapping-qos2", "late-pubrel-after-timeout", "qos2-large-ids", "publish-workers-survive-failures", "local-log-fails-remote-accepts"])
     scs += [gen_faults(c.rng, c.rng.choice([1, 2, 3, 3])) for _ in range(n_of(c, 24, 300))]
     run_scenarios(c, "publish-under-write-failures", scs, samples)
     # the handshake table is the ack queue: its timers under real (sub-second) deadlines and sweep times
@@ -43,7 +43,7 @@ def c14(tier=None):
     c = Check("C14", ["Wasp.Properties.Facts.Wiring", "Wasp.Properties.C14", "Wasp.Properties.C03C14E2E", "Wasp.Properties.Reachable2", "Wasp.Properties.E2EMulti", "Wasp.Properties.Facts.C14"], tier)
     c.build()
     samples = []
-    scs = brokerlib.corpus(c.rng, ["broken-recipient", "alternating-hosts", "unsubscribe-overtakes-subscribe", "publish-workers-survive-failures"])
+    scs = brokerlib.corpus(c.rng, ["broken-recipient", "alternating-hosts", "unsubscribe-overtakes-subscribe", "publish-workers-survive-failures", "local-log-fails-remote-accepts"])
     scs += [gen_faults(c.rng, c.rng.choice([2, 3, 3])) for _ in range(n_of(c, 20, 250))]
     run_scenarios(c, "cross-node-placement-and-unreachable-subsets", scs, samples)
     scs = [gen_converged(c.rng, c.rng.choice([2, 3]), 1, c.rng.choice([10, 16]), {"pub": 8, "sub": 4}) for _ in range(n_of(c, 6, 80))]
@@ -138,7 +138,7 @@ def c02(tier=None):
     scs += [brokerlib.gen_broken_recipient_qos(c.rng) for _ in range(n_of(c, 10, 100))]
     run_scenarios(c, "acked-publish-delivered-under-timeouts", scs, samples)
     # "acknowledged" presupposes that every hosting node's log took the message: publishes under failing logs / nodes
-    scs = [gen_faults(c.rng, c.rng.choice([2, 3])) for _ in range(n_of(c, 8, 100))]
+    scs = brokerlib.corpus(c.rng, ["local-log-fails-remote-accepts"]) + [gen_faults(c.rng, c.rng.choice([2, 3])) for _ in range(n_of(c, 8, 100))]
     run_scenarios(c, "acknowledged-only-if-stored-everywhere", scs, samples)
     brokerlib.add_reallog_suites(c, samples)
     return c.finish(samples=samples, rule="case = one publish history (QoS mix, 1-3 publishers and subscribers); the real-log suite crosses the segment (500) and truncation (2000) boundaries and starts with the first message a node ever stores")
